@@ -36,11 +36,12 @@ TOKENIZERS = [
 ]
 REVIEWED_INNER_GROUPS = {"path_index", "identquoted", "quoted"}  # delimited literals
 WHOLE = "<whole-match>"
+MATCH_VAR = ["match"]  # the loop variable of `for <m> in rules.finditer(<text>)` in the function at hand
 
 
 def _group_of_group_call(repo, mod, e):
     """match.group() -> WHOLE ; match.group(X) -> folded X ; else None"""
-    if isinstance(e, ast.Call) and callee_name(e) == "group" and isinstance(e.func, ast.Attribute) and is_name(call_recv(e), "match"):
+    if isinstance(e, ast.Call) and callee_name(e) == "group" and isinstance(e.func, ast.Attribute) and is_name(call_recv(e), MATCH_VAR[0]):
         if not e.args:
             return WHOLE
         return fold_str(repo, mod, e.args[0], 0)
@@ -52,7 +53,7 @@ def _start_expr(repo, mod, e):
     base = None
     if isinstance(e, ast.BinOp) and isinstance(e.op, ast.Add):
         base, e = text(e.left), e.right
-    if isinstance(e, ast.Call) and callee_name(e) in ("start", "end") and isinstance(e.func, ast.Attribute) and is_name(call_recv(e), "match"):
+    if isinstance(e, ast.Call) and callee_name(e) in ("start", "end") and isinstance(e.func, ast.Attribute) and is_name(call_recv(e), MATCH_VAR[0]):
         g = WHOLE if not e.args else fold_str(repo, mod, e.args[0], 0)
         return base, callee_name(e), g
     return base, None, None
@@ -106,6 +107,26 @@ def run(repo: Repo) -> Result:
                 matched = c.args[0].id
         if matched is None:
             raise AnchorMissing(f"{fq}: no finditer(<source>) loop found")
+        mv = [n.target.id for n in walk_no_nested(f.node) if isinstance(n, ast.For) and isinstance(n.target, ast.Name) and isinstance(n.iter, ast.Call) and callee_name(n.iter) == "finditer"]
+        if len(mv) != 1:
+            raise AnchorMissing(f"{fq}: expected one `for <match> in <rules>.finditer(...)` loop")
+        MATCH_VAR[0] = mv[0]
+        # offsets are reported against the text the CALLER holds: the matched text must be a
+        # parameter of the tokenizer and must not be rebound (normalised, stripped, decoded ...)
+        res.ob(f"{fq}:matched-text")
+        if matched not in f.params():
+            res.add("C20-TOKEN", fq, f"matched-text:{'derived'}", f"{fq} matches `{matched}`, which is not the text it was given: every start_index is an offset into a different string than the caller's source", f.file, f.line)
+        else:
+            for n in walk_no_nested(f.node):
+                tg = []
+                if isinstance(n, ast.Assign):
+                    tg = [x for t in n.targets for x in ast.walk(t)]
+                elif isinstance(n, (ast.AugAssign, ast.AnnAssign)):
+                    tg = [n.target]
+                elif isinstance(n, ast.NamedExpr):
+                    tg = [n.target]
+                if any(is_name(x, matched) for x in tg):
+                    res.add("C20-TOKEN", fq, "matched-text:rebound", f"{fq} rebinds `{matched}` (`{text(n)[:50]}`) before matching it: offsets (and Token.source) then refer to the modified text, so every reported index is shifted against the source the caller or loader holds", f.file, n.lineno)
         # variables bound from match.group(...)
         var_groups: dict[str, set] = {}
         var_starts: dict[str, set] = {}
@@ -268,14 +289,26 @@ def run(repo: Repo) -> Result:
     for m in ("detailed_message", "context"):
         f = le.methods[m]
         res.ob(f.qual)
-        body = [s for s in f.node.body if not (isinstance(s, ast.Expr) and isinstance(s.value, ast.Constant))]
-        first = body[0] if body else None
-        ok = (
-            isinstance(first, ast.If)
-            and "self.token.start_index < 0" in text(first.test)
-            and ("not self.token" in text(first.test) or "self.token is None" in text(first.test))
-            and isinstance(first.body[0], ast.Return)
-        )
+        # path conditions (sa/guards.py): every statement that reads token.source / start_index
+        # runs only where `self.token` is set and `self.token.start_index >= 0`
+        from ..guards import canon as _canon
+        from ..guards import conditions as _conditions
+
+        nonneg = _canon(ast.parse("self.token.start_index >= 0", mode="eval").body)
+        has_tok = {_canon(ast.parse("self.token", mode="eval").body), _canon(ast.parse("self.token is not None", mode="eval").body)}
+        ok = True
+        n_use = 0
+        for st, cs in _conditions(f.node):
+            if isinstance(st, (ast.If, ast.For, ast.While, ast.With, ast.Try)):
+                continue
+            if not any(isinstance(n, ast.Attribute) and n.attr in ("source", "start_index") and text(n.value) == "self.token" for n in ast.walk(st)):
+                continue
+            n_use += 1
+            cc = {_canon(c) for c in cs}
+            if nonneg not in cc or not (cc & has_tok):
+                ok = False
+        if n_use == 0:
+            ok = False
         if not ok:
             res.add("C20-ERR", f.qual, "guard", f"{f.qual} must return early when there is no token or start_index < 0 before indexing into the source", f.file, f.line)
         for c in calls(f.node):
@@ -316,6 +349,8 @@ def selftest(repo: Repo):
     Q = "liquid/builtin/tags/liquid_tag.py"
     S = "liquid/static_analysis.py"
     return [
+        v("lexer-strips-bom-before-matching", "liquid/lex.py", "    for match in rules.finditer(source):", "    if source.startswith(\"\\ufeff\"):\n        source = source[1:]\n\n    for match in rules.finditer(source):", "C20-TOKEN"),
+        v("lexer-matches-normalised-copy", "liquid/lex.py", "    for match in rules.finditer(source):", "    text_ = source.replace(\"\\r\\n\", \"\\n\")\n    for match in rules.finditer(text_):", "C20-TOKEN"),
         v("tag-offset-whole-match", L, '                start_index=match.start("name"),\n                source=source,\n            )\n\n            value = match.group("expr")', '                start_index=match.start(),\n                source=source,\n            )\n\n            value = match.group("expr")', "group-mismatch"),
         v("expr-offset-of-name", L, 'start_index=match.start("expr"),', 'start_index=match.start("name"),', "group-mismatch"),
         v("stmt-offset-end", L, 'start_index=match.start("stmt"),', 'start_index=match.end("stmt"),', "group-mismatch"),
